@@ -147,6 +147,11 @@ def _build(case, tmp):
     T = type(cls_name, (unittest.TestCase,), ns)
     suite = unittest.TestSuite()
     plan = []
+    for other in case.get("more_classes", ()):     # further test classes with one passing test each (one report file per class)
+        T2 = type(other, (unittest.TestCase,), {"__module__": mod, "test_only": lambda self: None})
+        suite.addTest(T2("test_only"))
+        plan.append({"spec": {"kind": "pass", "name": "test_only"}, "classname": "%s.%s" % (mod, other),
+                     "name": "test_only", "doctest": False})
     n_doc = 0
     for spec in case["tests"]:
         kind = spec["kind"]
@@ -170,6 +175,14 @@ def _build(case, tmp):
             path = os.path.join(path, fname)
             with open(path, "w", encoding="utf-8") as fh:
                 fh.write("Title\n=====\n\n" + text)
+            docloc = case.get("docloc", "elsewhere")
+            if docloc == "in-cwd":          # the doc file lies directly in the current directory, absolute path
+                os.chdir(os.path.dirname(path))
+            elif docloc == "relative":      # ... and is given as a one-component relative path
+                os.chdir(os.path.dirname(path))
+                path = fname
+            elif docloc == "below-cwd":
+                os.chdir(tmp)
             ds = doctest.DocFileSuite(path, module_relative=False)
             suite.addTest(ds)
             plan.append({"spec": spec, "classname": None, "name": fname, "doctest": True})
@@ -252,10 +265,16 @@ def _check(case):
     where = case.get("where", "message")
     repeat = case.get("repeat", 1)
     tmp = tempfile.mkdtemp(prefix="c17_")
+    cwd0 = os.getcwd()
     try:
         outdir = os.path.join(tmp, "out")
         suite, plan = _build(case, tmp)
         runner, exc, output = _run_runner(suite, outdir, repeat)
+        os.chdir(cwd0)
+        if exc is not None and case.get("docloc"):
+            problems.append(("xml:docfile-%s:run-raises:%s" % (case["docloc"], type(exc).__name__),
+                             "--xml with a doc file %s: Runner.run() raised %r" % (case["docloc"], exc)))
+            return problems
         if exc is not None:
             if hostile == "lone-surrogate" and isinstance(exc, UnicodeError):
                 problems.append(("xml:lone-surrogate:write-raises",
@@ -357,6 +376,7 @@ def _check(case):
                                             [(tc.getAttribute("classname"),
                                               tc.getAttribute("name")) for _f, tc in testcases])))
     finally:
+        os.chdir(cwd0)
         del dom_keep[:]
         shutil.rmtree(tmp, ignore_errors=True)
     out = {}
@@ -473,6 +493,17 @@ def _applicable(kind, where, hostile, text):
 
 def _catalogue():
     idx = 0
+    # several classes whose names differ only in characters that are unusual in file names: each keeps a report of its own
+    for names in (("TestOperator[+]", "TestOperator[*]"), ("Test[a b]", "Test[a,b]"), ("T(x)", "T{x}", "T__x_")):
+        yield {"tests": [{"kind": "pass", "name": "test_a"}, {"kind": "fail", "name": "test_b", "msg": "m"}],
+               "cls": names[0], "more_classes": list(names[1:]), "mod": "c17gen", "repeat": 1, "hostile": "plain",
+               "where": "class-names-differing-in-punctuation"}
+    # where a doc file lies relative to the current directory (the report name is derived from the path left after
+    # lopping off what it shares with the cwd)
+    for docloc in ("in-cwd", "relative", "below-cwd"):
+        for kind in ("docfile_pass", "docfile_fail"):
+            yield {"tests": [_one(kind, "plain", "message", "plain"), {"kind": "pass", "name": "test_p"}],
+                   "cls": "T", "mod": "c17gen", "repeat": 1, "hostile": "plain", "where": "message", "docloc": docloc}
     for hostile, texts in HOSTILE.items():
         for where in PLACES:
             for kind in UNITTEST_KINDS + DOCTEST_KINDS:
